@@ -3,6 +3,7 @@
 Case kinds
   {"kind":"pair", "fam":…, "how":"relabel"|"mutate"|"twin"|"indep", "g1":[[s,p,o]…], "g2":[…], "map":{l1:l2}|None}
   {"kind":"skolem", "variant":"default"|"authority"|"per-bnode"|"new-graph"|"external-basepath"|"authority-basepath", "g":[…]}
+  {"kind":"hist", "make":"to_isomorphic"|"ctor", "init":[…], "ops":[[add|remove|iadd|isub|addN|parse|update, [triples]]…], "salt":k}
   {"kind":"skolem-big", "variant":…, "n":1500..2500, "hubs":1..3, "chain":bool, "salt":k}   large star forest built from the parameters
   {"kind":"exh", "n":n, "mask":m}      thorough tier: class representative of the digraphs (loops allowed) on n ≤ 4
                                        blank nodes with one predicate, against every other class of the same size
@@ -44,6 +45,10 @@ RULE = ("pairs (g, relabel+shuffle g), (g, degree-preserving edge switch / edge 
         "literals / bnodes; skolemise->de-skolemise round trips (default / custom authority / custom basepath incl. the "
         "external genid path; literals whose text is a skolem IRI, genid IRIs in predicate position, genid IRIs already "
         "present = known finding; two star forests of 1500-2500 blank nodes per run whose hubs recur >1000 nodes apart); "
+        "histories on one IsomorphicGraph (compare, mutate through add / remove / += / -= / addN / parse / update, compare "
+        "again with a fresh to_isomorphic of the same content and with a same-size mutant); pairs whose two graphs share "
+        "an identifier (same IRI / blank-node identifier on two stores, named graph of two datasets, one and the same "
+        "object); skolemize authorities with paths / ports / userinfo and absolute or relative basepaths; "
         "thorough adds every pair of digraph classes on <=4 bnodes. "
         "non-trivial = some blank nodes are not separated by colour refinement alone (symmetric structure) or, for skolem "
         "cases, the graph has >=2 blank nodes; distinct = distinct (kind, family, how, colour-class profile, sizes)")
@@ -95,6 +100,29 @@ def mk_graph(triples):
     for s, p, o in triples:
         g.add((T(s), T(p), T(o)))
     return g
+
+
+def mk_pair_graphs(case):
+    """the two graphs of a pair case; `ident` says how they are made: anonymous (None), the same explicit IRI or blank
+    node identifier on two stores, the named graph of the same name in two datasets, or one and the same object"""
+    ident = case.get("ident")
+    if ident in (None, "anonymous"):
+        return mk_graph(case["g1"]), mk_graph(case["g2"])
+    if ident == "same-object":
+        g = mk_graph(case["g1"])
+        return g, g
+    name = BNode("graphname") if ident == "same-bnode" else URIRef("http://e/graph/name")
+    out = []
+    for ts in (case["g1"], case["g2"]):
+        if ident == "dataset":
+            from rdflib import Dataset
+            g = Dataset().graph(name)
+        else:
+            g = Graph(identifier=name)
+        for s_, p_, o_ in ts:
+            g.add((T(s_), T(p_), T(o_)))
+        out.append(g)
+    return out[0], out[1]
 
 
 def bn_of(triples):
@@ -431,7 +459,113 @@ def mask_graph(n, m):
 
 # ---------------------------------------------------------------- cases
 
+# ---------------------------------------------------------------- histories on one IsomorphicGraph
+
+H_GROUND = ["<http://e/a>", "<http://e/b>", '"x"', '"0"^^<%sinteger>' % XSD, '""', '"x"@en']
+H_OPS = ["add", "remove", "iadd", "isub", "addN", "parse", "update"]
+
+
+def gen_hist(rng):
+    """an IsomorphicGraph that is compared, mutated through every mutating API, and compared again"""
+    fam = rng.choice(["cycle", "perm2", "sparse", "stars", "orbits", "kmn"])
+    a = FAMILIES[fam](rng)
+    while nnodes(a) > 6 or len(a) > 14:
+        a = FAMILIES[rng.choice(["cycle", "perm2", "sparse"])](rng)
+    init, lab = render(rng, a, style=LABEL_STYLES[0])
+    init = [t for t in init if all(x != "<x>" for x in t)]
+    content = [list(t) for t in init]
+    pool = list(lab) + ["_:n%d" % k for k in range(2)]
+    ops = []
+    for k in range(rng.randint(2, 5)):
+        kind = rng.choice(H_OPS)
+
+        def new_triple(doc=False):
+            nodes = (["_:d0", "_:d1"] if doc else pool) + ["<http://e/a>"]
+            s_ = rng.choice(nodes)
+            o_ = rng.choice(nodes + H_GROUND) if rng.random() < 0.7 else rng.choice(H_GROUND)
+            return [s_, rng.choice([P, Q]), o_]
+        if kind in ("remove", "isub"):
+            # blank nodes that came from a parsed / inserted document have labels only the graph knows
+            removable = [t for t in content if not any(is_b(x) and x.startswith("_:p") for x in t)]
+            if not removable:
+                kind = "add"
+            else:
+                ts = rng.sample(removable, min(len(removable), 1 if kind == "remove" else rng.randint(1, 3)))
+                if kind == "isub" and rng.random() < 0.3:
+                    ts.append(new_triple())      # subtracting an absent triple changes nothing
+        if kind == "add":
+            ts = [rng.choice(content) if content and rng.random() < 0.15 else new_triple()]
+        elif kind in ("iadd", "addN"):
+            ts = [new_triple() for _ in range(rng.randint(1, 3))]
+        elif kind in ("parse", "update"):
+            ts = [new_triple(doc=True) for _ in range(rng.randint(1, 2))]
+        ops.append([kind, ts])
+        content = hist_apply(content, kind, ts, k)
+    return {"kind": "hist", "fam": fam, "make": rng.choice(["to_isomorphic", "ctor"]), "init": init, "ops": ops,
+            "salt": rng.randrange(10 ** 6)}
+
+
+def hist_apply(content, kind, ts, k):
+    """reference semantics of one mutating call on the triple set (blank nodes of a parsed / inserted document are
+    fresh: renamed with a prefix unique to the step)"""
+    content = [list(t) for t in content]
+    if kind in ("parse", "update"):
+        ts = [[("_:p%d." % k + x[2:]) if is_b(x) else x for x in t] for t in ts]
+    if kind in ("remove", "isub"):
+        return [t for t in content if t not in ts]
+    for t in ts:
+        if t not in content:
+            content.append(list(t))
+    return content
+
+
+def hist_steps(case):
+    """for the initial state and after every op: (reference content, relabelled+shuffled copy, same-size mutant)"""
+    out, content = [], [list(t) for t in case["init"]]
+    states = [content]
+    for k, (kind, ts) in enumerate(case["ops"]):
+        content = hist_apply(content, kind, ts, k)
+        states.append(content)
+    for k, ref in enumerate(states):
+        rng = core.case_rng(case["salt"], ID, k, "hist")
+        bn = bn_of(ref)
+        perm = list(range(len(bn)))
+        rng.shuffle(perm)
+        ren = {b: "_:c%d" % perm[j] for j, b in enumerate(bn)}
+        same = [[ren.get(x, x) for x in t] for t in ref]
+        rng.shuffle(same)
+        other = None
+        if same:
+            other = [list(t) for t in same]
+            j = rng.randrange(len(other))
+            other[j] = [other[j][0], other[j][1], "<http://e/zz%d>" % k]
+            if other[j] in same:
+                other = None
+        out.append((ref, same, other))
+    return out
+
+
+def nt_doc(ts):
+    return "".join("%s %s %s .\n" % tuple(t) for t in ts)
+
+
+IDENTS = [None, None, None, "same-iri", "same-iri", "same-bnode", "dataset", "same-object"]
+
+
+def with_ident(rng, case):
+    ident = rng.choice(IDENTS)
+    if ident == "same-object":
+        case = {**case, "g2": [list(t) for t in case["g1"]], "how": "same-object", "map": None}
+    case["ident"] = ident
+    return case
+
+
 def gen_case(rng, tier, i):
+    case = gen_case0(rng, tier, i)
+    return with_ident(rng, case) if case["kind"] == "pair" else case
+
+
+def gen_case0(rng, tier, i):
     if tier == "thorough" and i < len(classes()):
         n, _e, _l, m = classes()[i]
         return {"kind": "exh", "n": n, "mask": m}
@@ -441,7 +575,9 @@ def gen_case(rng, tier, i):
     r = rng.random()
     if r < 0.14:
         return gen_skolem(rng)
-    if r < 0.20:
+    if r < 0.23:
+        return gen_hist(rng)
+    if r < 0.29:
         name, fa, fb = rng.choice(TWINS)
         a, b = fa(), fb()
         dec = rng.random()
@@ -453,7 +589,7 @@ def gen_case(rng, tier, i):
         return {"kind": "pair", "fam": name, "how": "twin", "g1": g1, "g2": g2, "map": None}
     fam = pick_family(rng)
     a = decorate(rng, FAMILIES[fam](rng))
-    if r < 0.32:
+    if r < 0.40:
         return gen_multi(rng, fam, a, rng.randint(4, 7))
     g1, lab1 = render(rng, a)
     if rng.random() < 0.5:
@@ -485,6 +621,29 @@ SK_VARIANTS = {   # variant -> (authority, basepath) given to Graph.skolemize (N
     "external-basepath": ("http://example.org", GENID),          # de_skolemize takes the *external* genid branch
     "authority-basepath": ("http://b.example", GENID_R),
 }
+SK_AUTHORITIES = ["http://example.org/datasets/42/", "http://example.org/datasets/42", "http://example.org/a/b/c/",
+                  "https://user@example.org:8443/x/", "http://example.org:8080", "http://example.org/", "http://EXAMPLE.org",
+                  "http://example.org/a.b/c-d/", "http://example.org"]
+SK_BASEPATHS = [GENID_R, GENID_R, GENID, ".well-known/genid/rdflib/", ".well-known/genid/"]
+
+
+def sk_args(case):
+    """(authority, basepath) passed to Graph.skolemize; (None, None) = rdflib's defaults"""
+    if "authority" in case:
+        return case["authority"], case["basepath"]
+    return SK_VARIANTS[case["variant"]]
+
+
+def sk_outside(auth, base):
+    """a RELATIVE basepath joined to an authority that has a path does not put the skolem IRIs under the well-known
+    path at the root: de_skolemize cannot recognise them and the clause does not speak about them (observed only)"""
+    if auth is None or base is None or base.startswith("/"):
+        return False
+    from urllib.parse import urlparse
+    path = urlparse(auth).path
+    return (path[: path.rfind("/") + 1] or "/") != "/"
+
+
 LIT_KINDS = ['"%s"', '"%s"^^<' + XSD + 'anyURI>', '"%s"^^<' + XSD + 'string>', '"%s"@en']
 
 
@@ -523,8 +682,11 @@ def gen_skolem(rng):
         g[k] = [g[k][0], rng.choice(["<http://a.example%spred>" % GENID, "<https://rdflib.github.io%sp>" % GENID_R]), g[k][2]]
     rng.shuffle(g)
     variant = rng.choice(["default", "default", "authority", "per-bnode", "new-graph", "external-basepath",
-                          "external-basepath", "authority-basepath"])
-    return {"kind": "skolem", "variant": variant, "g": g}
+                          "external-basepath", "authority-basepath", "custom", "custom", "custom"])
+    case = {"kind": "skolem", "variant": variant, "g": g}
+    if variant == "custom":
+        case["authority"], case["basepath"] = rng.choice(SK_AUTHORITIES), rng.choice(SK_BASEPATHS)
+    return case
 
 
 def gen_skolem_big(rng, variant):
@@ -626,9 +788,9 @@ def sk_term(x, lits):
 
 
 def skolem_line(case):
-    auth, base = SK_VARIANTS[case["variant"]]
+    auth, base = sk_args(case)
     lits = {}
-    return "skolem %s %s %s" % (cps((auth or "https://rdflib.github.io").rstrip("/")), cps(base or GENID_R),
+    return "skolem %s %s %s" % (cps(auth or "https://rdflib.github.io"), cps(base or GENID_R),
                                 " ".join(sk_term(x, lits) for t in case["g"] for x in t))
 
 
@@ -650,6 +812,12 @@ def model_lines(case):
     if case["kind"] == "exh":
         g, partners, rel = exh_graphs(case)
         return [iso_line(g, h) for h in partners + rel]
+    if case["kind"] == "hist":
+        lines = []
+        for ref, same, other in hist_steps(case):
+            lines.append(iso_line(ref, same))
+            lines.append(iso_line(ref, other) if other is not None else iso_line(ref, same))
+        return lines
     if case["kind"] == "multi":
         g0 = case["gs"][0]
         return [iso_line(g0, g) if small(g0, g) else cert_line(g0, g, m) for g, m in zip(case["gs"][1:], case["maps"])]
@@ -661,6 +829,9 @@ def select_model_obs(case, out):
         return [out[0]] * 4 + ["diff " + out[1]] if out else []
     if case["kind"] == "skolem":
         return ["skolem-roundtrip-iso " + out[0]]
+    if case["kind"] == "hist":
+        return ["step %d eq-copy=%s eq-mutant=%s" % (k, out[2 * k], out[2 * k + 1] if hist_steps(case)[k][2] is not None else "n/a")
+                for k in range(len(out) // 2)]
     if case["kind"] == "multi":
         return ["copy %d same-digest-and-canonical-graph %s" % (k + 1, o) for k, o in enumerate(out)]
     return ["hash-equal " + o for o in out]
@@ -792,14 +963,15 @@ def b2s(b):
 def run_impl(case):
     _rearm_wall()
     return {"pair": run_pair, "skolem": run_skolem, "exh": run_exh, "multi": run_multi,
-            "skolem-big": run_skolem_big}[case["kind"]](case)
+            "skolem-big": run_skolem_big, "hist": run_hist}[case["kind"]](case)
 
 
 def run_pair(case):
     g1s, g2s = case["g1"], case["g2"]
-    g1, g2 = mk_graph(g1s), mk_graph(g2s)
+    g1, g2 = mk_pair_graphs(case)
     s1, s2 = set(g1), set(g2)
-    viol, obs, stats = [], [], {"pair": 1, "fam_" + case["fam"].split("|")[0]: 1, "how_" + case["how"]: 1}
+    viol, obs, stats = [], [], {"pair": 1, "fam_" + case["fam"].split("|")[0]: 1, "how_" + case["how"]: 1,
+                                "ident_" + (case.get("ident") or "anonymous"): 1}
     nb = max(len(bn_of(g1s)), len(bn_of(g2s)))
     stats["bnodes_%s" % ("0" if nb == 0 else "1-4" if nb <= 4 else "5-8" if nb <= 8 else "9-12" if nb <= 12 else "13+")] = 1
 
@@ -937,7 +1109,7 @@ def run_skolem(case):
 
     def roundtrip():
         v = case["variant"]
-        auth, base = SK_VARIANTS[v]
+        auth, base = sk_args(case)
         if auth is not None:
             sk = g.skolemize(authority=auth, basepath=base)
         elif v == "per-bnode":
@@ -960,7 +1132,13 @@ def run_skolem(case):
     if any(GENID in t[1] for t in gs):
         stats["skolem_with_genid_like_predicate"] = 1
     good = py_iso(back, set(g))
-    if not good:
+    outside = sk_outside(*sk_args(case))
+    if outside:
+        stats["skolem_outside_claim_observed_only"] = 1
+    if "authority" in case:
+        stats["skolem_authority_%s" % ("with-path" if sk_args(case)[0].count("/") > 2 and not sk_args(case)[0].endswith("org/") else "host-only")] = 1
+        stats["skolem_basepath_%s" % ("absolute" if sk_args(case)[1].startswith("/") else "relative")] = 1
+    if not good and not outside:
         viol.append("skolem: de_skolemize(skolemize(g)) is not isomorphic to g")
     if {x for t in g for x in t if isinstance(x, Literal)} != {x for t in back for x in t if isinstance(x, Literal)}:
         viol.append("skolem-literal: the round trip changed the set of literals of the graph")
@@ -973,6 +1151,81 @@ def run_skolem(case):
     nb = len(bn_of(gs))
     return {"obs": ["skolem-roundtrip-iso " + b2s(good)], "viol": viol, "nontrivial": nb >= 2,
             "key": repr(("skolem", case["variant"], nb, len(set(map(tuple, gs))), has_genid, sorted(gs)[:3])), "stats": stats}
+
+
+def run_hist(case):
+    from rdflib.compare import IsomorphicGraph
+    viol, obs, stats = [], [], {"hist": 1, "hist_ops": len(case["ops"]), "hist_make_" + case["make"]: 1}
+    if case["make"] == "ctor":
+        ig = IsomorphicGraph()
+        for t in case["init"]:
+            ig.add(tuple(T(x) for x in t))
+    else:
+        ig = to_isomorphic(mk_graph(case["init"]))
+    steps = hist_steps(case)
+    xlines, expect = [], []
+    for k, (ref, same, other) in enumerate(steps):
+        if k > 0:
+            kind, ts = case["ops"][k - 1]
+            stats["hist_op_" + kind] = stats.get("hist_op_" + kind, 0) + 1
+            trs = [tuple(T(x) for x in t) for t in ts]
+
+            def apply():
+                if kind == "add":
+                    ig.add(trs[0])
+                elif kind == "remove":
+                    ig.remove(trs[0])
+                elif kind == "iadd":
+                    ig.__iadd__(mk_graph(ts))
+                elif kind == "isub":
+                    ig.__isub__(mk_graph(ts))
+                elif kind == "addN":
+                    ig.addN((s_, p_, o_, ig) for s_, p_, o_ in trs)
+                elif kind == "parse":
+                    ig.parse(data=nt_doc(ts), format="nt")
+                elif kind == "update":
+                    ig.update("INSERT DATA { %s }" % nt_doc(ts))
+            ok, _ = call(viol, "IsomorphicGraph." + kind, apply)
+            if not ok:
+                return {"obs": obs, "viol": viol, "nontrivial": True, "key": "abort", "stats": stats}
+        cur = set(ig)
+        if not py_iso(cur, [tuple(T(x) for x in t) for t in ref]):
+            raise RuntimeError(f"history reference semantics differ from the graph's content after step {k}: {case}")
+        what = "initially" if k == 0 else "after %s (step %d)" % (case["ops"][k - 1][0], k)
+        fresh = to_isomorphic(mk_graph(same))
+        ok, r = call(viol, "IsomorphicGraph comparisons", lambda: (ig == fresh, fresh == ig, ig != fresh,
+                     ig.graph_digest() == fresh.graph_digest(), ig.internal_hash() == fresh.internal_hash(),
+                     isomorphic(ig, mk_graph(same))))
+        if not ok:
+            return {"obs": obs, "viol": viol, "nontrivial": True, "key": "abort", "stats": stats}
+        names = ["ig == copy", "copy == ig", "not (ig != copy)", "graph_digest equal", "internal_hash equal", "isomorphic(ig, copy)"]
+        vals = [r[0], r[1], not r[2], r[3], r[4], r[5]]
+        for nme, v in zip(names, vals):
+            if not v:
+                viol.append(f"false-negative: {what} '{nme}' is False for a relabelled copy of the graph's current content")
+        eq_other = "n/a"
+        if other is not None:
+            og = to_isomorphic(mk_graph(other))
+            truth = py_iso(cur, set(mk_graph(other)))
+            ok, r2 = call(viol, "IsomorphicGraph comparisons", lambda: (ig == og, ig.graph_digest() == og.graph_digest()))
+            if not ok:
+                return {"obs": obs, "viol": viol, "nontrivial": True, "key": "abort", "stats": stats}
+            if bool(r2[0]) != truth or bool(r2[1]) != truth:
+                viol.append(f"{'false-positive' if not truth else 'false-negative'}: {what} ig == same-size graph gave "
+                            f"{r2[0]} / digest-equal {r2[1]}, the contents are {'' if truth else 'not '}isomorphic")
+            eq_other = b2s(r2[0] and r2[1])
+            xlines.append(iso_line(ref, other))
+            expect.append(truth)
+        obs.append("step %d eq-copy=%s eq-mutant=%s" % (k, b2s(all(vals)), eq_other))
+        xlines.append(iso_line(ref, same))
+        expect.append(True)
+    got = drive(xlines)
+    stats["oracle_crosschecks"] = len(got)
+    if got != expect:
+        raise RuntimeError(f"ORACLE DISAGREEMENT (hist) isoutil={expect} lean={got} case={case}")
+    return {"obs": obs, "viol": viol, "nontrivial": len(case["ops"]) >= 2 and len(bn_of(steps[-1][0])) >= 2,
+            "key": repr(("hist", case["make"], [o[0] for o in case["ops"]], len(case["init"]), profile(steps[-1][0]))),
+            "stats": stats}
 
 
 def wl_profile(triples, rounds=3):
@@ -998,7 +1251,7 @@ def run_skolem_big(case):
     gs = big_graph(case)
     g = mk_graph(gs)
     viol, stats = [], {"skolem_big": 1, "skolem_big_" + case["variant"]: 1, "skolem_big_triples": len(gs)}
-    auth, base = SK_VARIANTS[case["variant"]]
+    auth, base = sk_args(case)
 
     def roundtrip():
         sk = g.skolemize(authority=auth, basepath=base) if auth is not None else g.skolemize()
@@ -1079,6 +1332,17 @@ def shrink(case):
             yield {**case, "g": g[:i] + g[i + 1:]}
         if case["variant"] != "default":
             yield {**case, "variant": "default"}
+        return
+    if case["kind"] == "hist":
+        ops = case["ops"]
+        for i in range(len(ops)):
+            yield {**case, "ops": ops[:i] + ops[i + 1:]}
+        for i in range(len(case["init"])):
+            yield {**case, "init": case["init"][:i] + case["init"][i + 1:]}
+        for i, (kind, ts) in enumerate(ops):
+            if len(ts) > 1:
+                for j in range(len(ts)):
+                    yield {**case, "ops": ops[:i] + [[kind, ts[:j] + ts[j + 1:]]] + ops[i + 1:]}
         return
     if case["kind"] == "skolem-big":
         if case["n"] > 1100:
